@@ -20,7 +20,7 @@ RULE = (
     "input and output are parsed with the harness's own CIF tokenizer: every other category identical (items, rows, "
     "row order), every other item of the edited category identical, target == source column (copy) or image of the "
     "returned mapping (replace), mapping injective, first-seen ordered and equal to the reference mapping; absent "
-    "category or source item => output byte-identical to the input and mapping {}. CLI: transformer.main() on a file "
+    "category or source item => output byte-identical to the input and mapping {}. CLI: transformer.main() (to a separate output file and in place, output path == input path) on a file "
     "copy of the document: output file == library return value for the file's content. Each document is first passed "
     "through a plain IoAdapterPy read/write (no rnapolis); documents the mmcif package itself does not preserve are "
     "discarded and counted. Non-trivial: document with >=3 categories, a quoted multi-word value and a '?'/'.' in the "
@@ -240,6 +240,12 @@ def oracle(case):
                         out.append(D("C20:cli:writes-input-path", "the output file contains the input PATH instead of the transformed content"))
                     else:
                         out.append(D("C20:cli:differs-from-library", f"output of the tool ({len(got)} chars) != library result ({len(lib)} chars) for {argv[2:]}"))
+            # the same call with the output path equal to the input path (editing a file in place)
+            run_cli([pin, pin] + argv[2:])
+            with open(pin) as f:
+                got = f.read()
+            if got != lib:
+                out.append(D("C20:cli:in-place-differs-from-library", f"with output path == input path the file holds {len(got)} chars, the library result has {len(lib)} for {argv[2:]}"))
         except SystemExit as e:
             out.append(D("C20:cli:exit", f"transformer exited with {e.code} for {argv[2:]}"))
         except Exception as e:
